@@ -326,7 +326,107 @@ def work_trapped(shard):
     return part
 
 
+# ---------------------------------------------------------------------------
+# READ lists whose later targets depend on earlier ones (READ I,A(I)): items are assigned in list order,
+# each target located when its turn comes
+
+DEP_TARGETS = ['I', 'J', 'A(I)', 'A(J)', 'A(I+1)', 'N$(J)', 'A(A(I))', 'B(J,I)']
+DEP_DATA = [3, 1, 4, 2, 6, 5, 7, 0]
+
+
+def dependent_cases(maxlen):
+    import itertools
+    out = []
+    for n in range(2, maxlen + 1):
+        for lst in itertools.product(range(len(DEP_TARGETS)), repeat=n):
+            # at least one element target behind a scalar target
+            if any(DEP_TARGETS[t] in ('I', 'J') for t in lst[:-1]) and any('(' in DEP_TARGETS[t] for t in lst[1:]):
+                out.append(lst)
+    return out
+
+
+def _dep_reference(lst):
+    """Sequential assignment: returns the expected printed text."""
+    I = J = 0
+    A = [0] * 10
+    B = {}
+    N = [''] * 10
+    items = list(DEP_DATA)
+    for t in lst:
+        v = items.pop(0)
+        name = DEP_TARGETS[t]
+        if name == 'I':
+            I = v
+        elif name == 'J':
+            J = v
+        elif name == 'A(I)':
+            A[I] = v
+        elif name == 'A(J)':
+            A[J] = v
+        elif name == 'A(I+1)':
+            A[I + 1] = v
+        elif name == 'N$(J)':
+            N[J] = str(v)
+        elif name == 'A(A(I))':
+            A[A[I]] = v
+        elif name == 'B(J,I)':
+            B[(J, I)] = v
+    out = ' %d  %d /' % (I, J)
+    out += ''.join(' %d ' % x for x in A) + '/' + ','.join(N) + '/'
+    out += ''.join(' %d ' % B.get((j, i), 0) for j in range(8) for i in range(8))
+    return out
+
+
+def work_dependent(shard):
+    from mc import harness as H
+    part = Partial()
+    s = H.new_session()
+    fixed = [
+        '10 DIM A(9),N$(9),B(7,7)',
+        '20 DATA ' + ','.join(str(d) for d in DEP_DATA),
+        '40 PRINT I;J;"/";:FOR K=0 TO 9:PRINT A(K);:NEXT:PRINT "/";:FOR K=0 TO 8:PRINT N$(K);",";:NEXT:PRINT N$(9);"/";',
+        '50 FOR K=0 TO 7:FOR L=0 TO 7:PRINT B(K,L);:NEXT:NEXT',
+    ]
+    for l in fixed:
+        r = H.run(s, l.encode('ascii'))
+        if r.exc is not None or r.out.strip():
+            raise CheckError('line not accepted: %r -> %r' % (l, r))
+    for lst in shard:
+        stmt = '30 READ ' + ','.join(DEP_TARGETS[t] for t in lst)
+        case = {'leg': 'dependent', 'targets': list(lst), 'statement': stmt}
+        H.run(s, stmt.encode('ascii'))
+        r = H.run(s, b'RUN')
+        part.n += 1
+        part.traces += 1
+        if r.exc is not None:
+            part.violation('dependent/host-exception/%s' % H.exc_key(r.exc), '%r raised %r' % (stmt, r.exc), case)
+            s = H.new_session()
+            for l in fixed:
+                H.run(s, l.encode('ascii'))
+            continue
+        got = r.out.decode('latin-1').replace('\r', '').replace('\n', '')
+        want = _dep_reference(lst)
+        if r.err is not None:
+            part.violation('dependent/error', '%r gave error %r' % (stmt, r.err), case)
+        elif got != want:
+            part.violation('dependent/assigned-to-wrong-variable', '%r with DATA %r printed %r, expected %r' % (
+                stmt, DEP_DATA, got, want), case)
+        part.classes.add('dependent/%s' % '+'.join(sorted(set(DEP_TARGETS[t] for t in lst))))
+    s.close()
+    part.sample({'leg': 'dependent', 'targets': list(shard[0])})
+    return part
+
+
 def legs(ctx):
+    dep = dependent_cases(3 if ctx.quick else 4)
+    return _legs_model(ctx) + [
+        Leg('dependent', list(chunked(dep, 60)), work_dependent, exhaustive=True,
+            bound='all %d READ lists of 2..%d targets over %s (an element target behind a scalar target) on fixed DATA: '
+                  'items are assigned in list order and each target is located when its turn comes' % (
+                      len(dep), 3 if ctx.quick else 4, DEP_TARGETS))]
+
+
+def _legs_model(ctx):
     kmax = 2 if ctx.quick else 3
     tc = traverse_cases(kmax)
     scripts = restore_scripts(3 if ctx.quick else 4)
@@ -355,6 +455,8 @@ def legs(ctx):
 def replay(ctx, leg, case):
     part = Partial()
     runner = Runner()
+    if case['leg'] == 'dependent':
+        return work_dependent([tuple(case['targets'])])
     if case['leg'] == 'trapped':
         return work_trapped([(tuple(case['contents']), tuple(case['place']), [tuple(x) for x in case['script']])])
     if case['leg'] == 'traverse':
